@@ -395,7 +395,8 @@ class Service(object):
         # - disable cache if comparing providers or if after_txid is used and no cache is available
         last_block = None
         last_txid = None
-        if self.min_providers <= 1 and not (after_txid and not db_addr) and caching_enabled:
+        history_cached = db_addr is not None and db_addr.last_txid is not None
+        if self.min_providers <= 1 and not (after_txid and not history_cached) and caching_enabled:
             last_block = self.blockcount()
             last_txid = qry_after_txid
             self.complete = True
@@ -822,7 +823,8 @@ class Cache(object):
             return False
         db_addr = self.getaddress(address)
         txs = []
-        if db_addr:
+        # Only use cached transactions if the history of this address has been stored from the start
+        if db_addr and db_addr.last_txid is not None:
             if after_txid:
                 after_tx = self.session.query(DbCacheTransaction).\
                     filter_by(txid=after_txid, network_name=self.network.name).scalar()
@@ -918,6 +920,10 @@ class Cache(object):
         """
         if not self.cache_enabled():
             return False
+        db_addr = self.getaddress(address)
+        if not db_addr or db_addr.last_txid is None:
+            # Transactions of this address could be in the cache without the address history being complete
+            return []
         db_utxos = self.session.query(DbCacheTransactionNode.spent, DbCacheTransactionNode.index_n,
                                       DbCacheTransactionNode.value, DbCacheTransaction.confirmations,
                                       DbCacheTransaction.block_height, DbCacheTransaction.fee,
